@@ -2,7 +2,7 @@
     (partial: the decision logic is proved; clap's tokenisation, terminal styling and
     the stdout plumbing are exercised by the correspondence run, not modelled).
     Property theorems only; each closed by [exact] of a lemma from Proofs/CliFacts.v. *)
-From Rocfl Require Import Base.Bytes Generated.Consts Model.Cli Model.KnownC20 Proofs.CliFacts.
+From Rocfl Require Import Base.Bytes Generated.Consts Model.Cli Proofs.CliFacts.
 Open Scope N_scope.
 
 (** The exit statuses written in the sources on this run (regenerated constants). *)
@@ -13,9 +13,9 @@ Print Assumptions C20_exit_codes_pinned.
 
 (** Exit status 0 exactly when the command succeeded: every library call returned Ok,
     no item of a listing failed and, for validate, nothing invalid is left after
-    suppression.  Outside the recorded class of `validate -e` on storage-root errors. *)
+    suppression (storage root included: src/cmd/validate.rs:144 after commit 33c0c45). *)
 Theorem C20_exit_zero_iff_success : forall c,
-  c20_known c = false -> (cli_exit c = 0 <-> cmd_success c = true).
+  cli_exit c = 0 <-> cmd_success c = true.
 Proof. exact exit_zero_iff_success. Qed.
 Print Assumptions C20_exit_zero_iff_success.
 
@@ -44,36 +44,70 @@ Proof. exact validate_objects_exit_2_iff_prop. Qed.
 Print Assumptions C20_validate_objects_exit_2_iff_invalid_after_suppression.
 
 (** validate (repository): 2 exactly when the storage root, some object or the storage
-    hierarchy keeps an unsuppressed error - outside the known class. *)
+    hierarchy keeps an unsuppressed error.  For ALL options and results: -e / -w are applied
+    to the storage root result (validate.rs:144), to every object result (:163) and to the
+    storage hierarchy result (:201). *)
 Theorem C20_validate_exit_2_iff_invalid_after_suppression : forall f rr,
-  c20_root_suppression f rr = false ->
-  (validate_repo_exit f rr = 2 <->
-   (exists e, In e (vr_errors (rr_root rr)) /\ ~ In e (vf_sup_e f)) \/
-   (exists r e, In (VRes r) (rr_objects rr) /\ In e (vr_errors r) /\ ~ In e (vf_sup_e f)) \/
-   (exists e, In e (vr_errors (rr_hier rr)) /\ ~ In e (vf_sup_e f))).
+  validate_repo_exit f rr = 2 <->
+  (exists e, In e (vr_errors (rr_root rr)) /\ ~ In e (vf_sup_e f)) \/
+  (exists r e, In (VRes r) (rr_objects rr) /\ In e (vr_errors r) /\ ~ In e (vf_sup_e f)) \/
+  (exists e, In e (vr_errors (rr_hier rr)) /\ ~ In e (vf_sup_e f)).
 Proof. exact validate_repo_exit_2_iff_prop. Qed.
 Print Assumptions C20_validate_exit_2_iff_invalid_after_suppression.
 
-(** The pinned code refutes the unrestricted statement (genuine defect, known finding):
-    src/cmd/validate.rs:144 suppresses the hierarchy result instead of the root result. *)
-Theorem C20_validate_exit_2_iff_refuted_for_pinned_code :
-  ~ (forall f rr, validate_repo_exit f rr = 2 <-> repo_invalid_after_suppression f rr = true).
-Proof. exact validate_exit_2_iff_refuted. Qed.
-Print Assumptions C20_validate_exit_2_iff_refuted_for_pinned_code.
+(** What validate writes about the storage itself agrees with the verdict: a written
+    "Storage root / hierarchy is ..." block lists exactly the unsuppressed errors of that
+    result and no suppressed warning ... *)
+Theorem C20_validate_storage_blocks_list_only_unsuppressed : forall f rr,
+  (forall es ws, validate_repo_root_block f rr = Some (es, ws) ->
+     (forall e, In e es <-> In e (vr_errors (rr_root rr)) /\ ~ In e (vf_sup_e f)) /\
+     (forall w, In w ws -> In w (vr_warnings (rr_root rr)) /\ ~ In w (vf_sup_w f))) /\
+  (forall es ws, validate_repo_hier_block f rr = Some (es, ws) ->
+     (forall e, In e es <-> In e (vr_errors (rr_hier rr)) /\ ~ In e (vf_sup_e f)) /\
+     (forall w, In w ws -> In w (vr_warnings (rr_hier rr)) /\ ~ In w (vf_sup_w f))).
+Proof. exact validate_repo_blocks_sound. Qed.
+Print Assumptions C20_validate_storage_blocks_list_only_unsuppressed.
 
-(** The excluded class is exactly the set of inputs on which the pinned code is wrong. *)
-Theorem C20_validate_known_class_exact : forall f rr,
-  c20_root_suppression f rr = true ->
-  validate_repo_exit f rr = 2 /\ repo_invalid_after_suppression f rr = false /\
-  validate_repo_exit_fixed f rr <> 2.
-Proof. exact validate_repo_exit_in_class. Qed.
-Print Assumptions C20_validate_known_class_exact.
+(** ... every unsuppressed storage error is written whatever -l says, every unsuppressed
+    storage warning unless -l error ... *)
+Theorem C20_validate_unsuppressed_storage_problems_written : forall f rr,
+  (forall e, In e (vr_errors (rr_root rr)) -> ~ In e (vf_sup_e f) ->
+     exists es ws, validate_repo_root_block f rr = Some (es, ws) /\ In e es) /\
+  (forall e, In e (vr_errors (rr_hier rr)) -> ~ In e (vf_sup_e f) ->
+     exists es ws, validate_repo_hier_block f rr = Some (es, ws) /\ In e es) /\
+  (forall w, In w (vr_warnings (rr_root rr)) -> ~ In w (vf_sup_w f) -> vf_level f <> LvError ->
+     exists es ws, validate_repo_root_block f rr = Some (es, ws) /\ In w ws) /\
+  (forall w, In w (vr_warnings (rr_hier rr)) -> ~ In w (vf_sup_w f) -> vf_level f <> LvError ->
+     exists es ws, validate_repo_hier_block f rr = Some (es, ws) /\ In w ws).
+Proof. exact validate_repo_blocks_complete. Qed.
+Print Assumptions C20_validate_unsuppressed_storage_problems_written.
 
-(** With the one-line repair the statement holds for all inputs. *)
-Theorem C20_validate_fixed_exit_2_iff_invalid_after_suppression : forall f rr,
-  validate_repo_exit_fixed f rr = 2 <-> repo_invalid_after_suppression f rr = true.
-Proof. exact validate_repo_fixed_exit_2_iff. Qed.
-Print Assumptions C20_validate_fixed_exit_2_iff_invalid_after_suppression.
+(** ... and the summary says "Storage issues: 0" exactly when every error of the storage
+    root and of the storage hierarchy is suppressed. *)
+Theorem C20_validate_storage_issues_zero_iff_all_suppressed : forall f rr,
+  validate_repo_storage_issues f rr = 0 <->
+  (forall e, In e (vr_errors (rr_root rr)) -> In e (vf_sup_e f)) /\
+  (forall e, In e (vr_errors (rr_hier rr)) -> In e (vf_sup_e f)).
+Proof. exact validate_repo_storage_issues_zero_iff. Qed.
+Print Assumptions C20_validate_storage_issues_zero_iff_all_suppressed.
+
+(** Historical note (about [validate_repo_exit_before_fix], which is NOT the model of /repo):
+    before commit 33c0c45 line 144 suppressed the hierarchy result instead of the root
+    result.  The repair changed the exit status exactly where the user suppresses an error
+    of the storage root and nothing invalid is left; there the old code answered 2, which
+    violated the property (former known finding validate-root-suppression). *)
+Theorem C20_note_before_fix_differs_exactly_on_suppressed_root_errors : forall f rr,
+  validate_repo_exit_before_fix f rr <> validate_repo_exit f rr <->
+  (exists e, In e (vr_errors (rr_root rr)) /\ In e (vf_sup_e f)) /\
+  repo_invalid_after_suppression f rr = false.
+Proof. exact validate_repo_before_fix_differs_iff. Qed.
+Print Assumptions C20_note_before_fix_differs_exactly_on_suppressed_root_errors.
+
+Theorem C20_note_before_fix_violated_the_property :
+  exists f rr, validate_repo_exit_before_fix f rr = 2 /\ repo_invalid_after_suppression f rr = false /\
+               validate_repo_exit f rr = 0.
+Proof. exact validate_before_fix_violated_property. Qed.
+Print Assumptions C20_note_before_fix_violated_the_property.
 
 (** Exit status 1: nothing invalid, but some validation could not be performed. *)
 Theorem C20_validate_objects_exit_1_iff_only_operational_errors : forall f objs,
@@ -83,9 +117,8 @@ Proof. exact validate_objects_exit_1_iff. Qed.
 Print Assumptions C20_validate_objects_exit_1_iff_only_operational_errors.
 
 Theorem C20_validate_exit_1_iff_only_operational_errors : forall f rr,
-  c20_root_suppression f rr = false ->
-  (validate_repo_exit f rr = 1 <->
-   repo_invalid_after_suppression f rr = false /\ existsb is_verr (rr_objects rr) = true).
+  validate_repo_exit f rr = 1 <->
+  repo_invalid_after_suppression f rr = false /\ existsb is_verr (rr_objects rr) = true.
 Proof. exact validate_repo_exit_1_iff. Qed.
 Print Assumptions C20_validate_exit_1_iff_only_operational_errors.
 
@@ -95,12 +128,11 @@ Theorem C20_validate_exit_in_0_1_2 : forall f objs rr,
 Proof. exact validate_exit_range. Qed.
 Print Assumptions C20_validate_exit_in_0_1_2.
 
-(** Suppressing more codes never turns exit status 0 into 2 (pinned and repaired code). *)
+(** Suppressing more codes never turns exit status 0 into 2. *)
 Theorem C20_suppression_monotone : forall f f' objs rr,
   incl (vf_sup_e f) (vf_sup_e f') ->
   (validate_objects_exit f objs = 0 -> validate_objects_exit f' objs <> 2) /\
-  (validate_repo_exit f rr = 0 -> validate_repo_exit f' rr <> 2) /\
-  (validate_repo_exit_fixed f rr = 0 -> validate_repo_exit_fixed f' rr <> 2).
+  (validate_repo_exit f rr = 0 -> validate_repo_exit f' rr <> 2).
 Proof. exact suppression_monotone_all. Qed.
 Print Assumptions C20_suppression_monotone.
 
@@ -153,11 +185,23 @@ Example C20_nonvacuous_validate :
   let f := mkVF false false LvInfo [5] [69; 92] in
   let ok := VRes (mkVR [] [5]) in
   let bad := VRes (mkVR [92; 23] []) in
-  (* outside the class: a root error that is not suppressed *)
-  c20_root_suppression f (mkRR (mkVR [80] []) [ok] empty_vr) = false /\
+  (* a root error that is not suppressed *)
   validate_repo_exit f (mkRR (mkVR [80] []) [ok] empty_vr) = 2 /\
+  (* the only problem is a suppressed root error: exit 0, nothing listed, no storage issue *)
+  validate_repo_exit f (mkRR (mkVR [69] []) [ok] empty_vr) = 0 /\
+  validate_repo_root_block f (mkRR (mkVR [69] []) [ok] empty_vr) = Some ([], []) /\
+  validate_repo_storage_issues f (mkRR (mkVR [69] []) [ok] empty_vr) = 0 /\
+  (* a suppressed root error next to an unsuppressed one / an invalid object / a hierarchy error *)
+  validate_repo_exit f (mkRR (mkVR [69; 80] []) [ok] empty_vr) = 2 /\
+  validate_repo_root_block f (mkRR (mkVR [69; 80] [16]) [ok] empty_vr) = Some ([80], [16]) /\
+  validate_repo_exit f (mkRR (mkVR [69] []) [ok; bad] empty_vr) = 2 /\
+  validate_repo_exit f (mkRR (mkVR [69] []) [ok] (mkVR [72] [])) = 2 /\
+  validate_repo_storage_issues f (mkRR (mkVR [69] []) [ok] (mkVR [72] [])) = 1 /\
+  (* -w on a root warning, -l error hides the block of a result that only has warnings *)
+  validate_repo_root_block (mkVF false false LvWarn [16] []) (mkRR (mkVR [] [16]) [ok] empty_vr) = None /\
+  validate_repo_root_block (mkVF false false LvWarn [] []) (mkRR (mkVR [] [16]) [ok] empty_vr) = Some ([], [16]) /\
+  validate_repo_root_block (mkVF false false LvError [] []) (mkRR (mkVR [] [16]) [ok] empty_vr) = None /\
   (* hierarchy error suppressed: honoured *)
-  c20_root_suppression (mkVF false false LvInfo [] [72]) (mkRR empty_vr [ok] (mkVR [72] [])) = false /\
   validate_repo_exit (mkVF false false LvInfo [] [72]) (mkRR empty_vr [ok] (mkVR [72] [])) = 0 /\
   validate_repo_exit f (mkRR empty_vr [ok; VErr] empty_vr) = 1 /\
   validate_objects_exit f [ok; bad] = 2 /\
@@ -167,7 +211,9 @@ Example C20_nonvacuous_validate :
 Proof. vm_compute. repeat split; reflexivity. Qed.
 
 Example C20_nonvacuous_exit :
-  c20_known (OPlain [LOk; LOk]) = false /\ cli_exit (OPlain [LOk; LOk]) = 0 /\
+  cli_exit (OPlain [LOk; LOk]) = 0 /\
+  cli_exit (OValidateRepo (mkVF false false LvInfo [] [69]) (Some (mkRR (mkVR [69] []) [VRes (mkVR [] [5])] empty_vr))) = 0 /\
+  cmd_success (OValidateRepo (mkVF false false LvInfo [] [69]) (Some (mkRR (mkVR [69] []) [VRes (mkVR [] [5])] empty_vr))) = true /\
   cli_exit (OPlain [LOk; LErr (ECopyMove 1)]) = 1 /\
   cli_exit (OLs (LsObjects LOk [LOk; LErr EOther; LOk])) = 1 /\
   ls_objects_entries [LOk; LErr EOther; LOk] = 2 /\
